@@ -204,6 +204,10 @@ type Policy struct {
 	// NoComments forbids comments even under WSComments (used to neutralise
 	// the comment feature in counterfactual runs).
 	NoComments bool
+	// RawEOL lets a data LF inside a literal string be spelled as an
+	// unescaped CR or CR LF; NoRawEOL neutralises exactly that choice.
+	RawEOL   bool
+	NoRawEOL bool
 }
 
 func (p Policy) String() string {
@@ -597,8 +601,18 @@ func (w *Writer) literalString(s []byte, escaped bool) {
 		case named[b] != 0:
 			switch {
 			case !escaped && w.R.Intn(3) > 0:
-				w.buf.WriteByte(b) // raw LF, HT, BS, FF are themselves
-				w.feat("raw-control")
+				// raw LF, HT, BS, FF are themselves. A data LF may also be
+				// written as a raw CR or CR LF: an unescaped end-of-line
+				// marker reads as one LF whichever of the three it is
+				// (§7.3.4.2). Not in front of another LF (CR LF would merge).
+				v := w.R.Intn(3) // drawn unconditionally: neutralising the feature must not shift the stream
+				if b == '\n' && w.P.RawEOL && !w.P.NoRawEOL && v > 0 && !(i+1 < len(s) && s[i+1] == '\n') {
+					w.buf.WriteString([]string{"", "\r", "\r\n"}[v])
+					w.feat("raw-eol-cr-in-string")
+				} else {
+					w.buf.WriteByte(b)
+					w.feat("raw-control")
+				}
 			case w.R.Intn(2) == 0:
 				w.buf.WriteByte('\\')
 				w.buf.WriteByte(named[b])
